@@ -110,6 +110,7 @@ type pathResult struct {
 	byModel     int
 	folded      int
 	monitorChecks int
+	silentWrites int
 }
 
 const (
